@@ -478,8 +478,10 @@ def process_fn(asm, f, unit):
             continue
         try:
             s0, e0, positional = _resolve_anchor(textA, body0, pat, nth, "claim", f, unit.name, "claims", k)
-            if positional and where_ in ("at", "atend"):
-                raise LostAnchor("inline claim: no positional fallback")
+            if positional:
+                # a claim is never re-placed by position: at a wrong place its condition may simply be false there (a false alarm);
+                # a hint may be (a misplaced hint can only fail and be removed)
+                raise LostAnchor("claim: no positional fallback")
         except LostAnchor:
             # the statement the claim is about is gone: the claim is UNDECIDED (reported as such), the rest of the function is still checked:
             # a violation found elsewhere is a violation all the same
